@@ -1042,4 +1042,7 @@ def _run_rest(chk, fx):
     from verif import narrow
     narrow.run_offwidth(chk, "C07")
 
+    from verif import fallthrough
+    fallthrough.run(chk, "C07", floor=6)
+
     chk.assumptions += ["tables/ecl_layout.json: published Eclipse file-format constants"]
